@@ -9,7 +9,7 @@ independent reference written from RFC 7950 §14 (`if-feature-expr`, `range-arg`
     accepted derived restriction accepts a subset of what its base accepts; value validation = membership.
 Part 2 (checks/c11meta.py): structured vs hand-flattened module pairs and load-order independence through `api_compile`.
 """
-import itertools, re
+import itertools, os, re
 from vlib.proto import hexs, unhex
 
 LEAN_TARGETS = ["LyModel.Props.C11", "LyModel.Props.C11Range"]
@@ -33,11 +33,18 @@ def classify(component, what, case):
     """A failing case is an instance of a known finding only if it has exactly that finding's mechanism."""
     if case.get("crash") and component == "compile":
         err = case.get("stderr", "")
-        # UBSan: "schema_compile_node.c:<line>: runtime error: member access within null pointer of type 'struct lysc_type'"
-        # (for a deep stack only the SUMMARY line and the outer frames survive in the kept tail of stderr)
-        if "schema_compile_node.c:" in what and ("null pointer of type 'struct lysc_type'" in what or
-                                                  ("undefined-behavior" in what and "lys_compile_node_type" in err)):
-            return "F54"
+        # UBSan reports "schema_compile_node.c:<line>:<col>: runtime error: member access within null pointer of type
+        # 'struct lysc_type'" (for a deep stack only the SUMMARY line survives in the kept tail of stderr): the finding is
+        # recognised by WHAT the reported source line is, read from the tree under test
+        m = re.search(r"schema_compile_node\.c:(\d+):", what)
+        if m and ("undefined-behavior" in what or "null pointer of type 'struct lysc_type'" in what):
+            try:
+                from vlib import paths
+                line = open(os.path.join(paths.REPO, "src", "schema_compile_node.c")).read().split("\n")[int(m.group(1)) - 1]
+            except (OSError, IndexError):
+                line = ""
+            if "tpdf_chain.objs[tpdf_chain.count - 1]" in line and "type.compiled->basetype" in line:
+                return "F54"
         if "SEGV" in what and "lys_compile_type" in err:
             return "F54"
         return None
